@@ -343,6 +343,7 @@ func runRename(res *vh.Result, seed uint64, n int, known bool, outDir string, ki
 		runRewriteCases(seed, 6000, outDir, res.Extra)
 		runStmtCases(seed, 6000, outDir, res.Extra)
 		runNumLitCases(seed, 6000, outDir, res.Extra)
+		runStrLitCases(seed, 10000, outDir, res.Extra)
 		return
 	}
 	fmt.Fprintf(fin, "rename_keywords\t%s\n", strings.Join(kh, ","))
